@@ -22,9 +22,15 @@ def run_case(case):
         seg.append(["r", v])
         return v / TICK
 
+    class Boom(Exception):
+        pass
+
     def make_cb(i, nreads):
         def cb():
             seg.append(["c", i])
+            if state.get("bad") == i:
+                seg.append(["raise"])
+                raise Boom()
             for _ in range(nreads):
                 ptime.time()
         cb.ident = i
@@ -59,6 +65,14 @@ def run_case(case):
             for op in case["ops"]:
                 if op[0] == "u":
                     obj.update()
+                elif op[0] == "ur":
+                    state["bad"] = op[1]
+                    try:
+                        obj.update()
+                    except Boom:
+                        pass
+                    finally:
+                        state["bad"] = None
                 elif op[0] == "reg":
                     cbs[op[1]] = make_cb(op[1], op[2])
                     obj.register_callback(cbs[op[1]])
